@@ -71,7 +71,8 @@ def build_go():
     """(prod ergo binary, verif-tagged ergo binary with scriptable RNG, ergoverif) built from /repo's working tree."""
     with Lock("go.lock"):
         fp = repo_fingerprint()
-        d = os.path.join(BUILD, "bin-" + fp)
+        cover = ["-cover"] if os.environ.get("VERIF_COVER") else []     # tools/coverage.py: which statements of /repo the ties and oracles execute
+        d = os.path.join(BUILD, "bin-" + fp + ("-cover" if cover else ""))
         ergo, ergov, ev = (os.path.join(d, n) for n in ("ergo", "ergo_verif", "ergoverif"))
         if all(os.path.exists(x) for x in (ergo, ergov, ev)):
             os.utime(d)
@@ -89,7 +90,7 @@ def build_go():
         ov = write_overlay()
         for out, tags, pkg in ((ergo, [], "./cmd/ergo"), (ergov, ["-tags", "verif", "-overlay", ov], "./cmd/ergo"),
                                (ev, ["-tags", "verif", "-overlay", ov], "./cmd/ergoverif")):
-            r = run(["go", "build", *tags, "-o", out, pkg], cwd=REPO, env=GOENV)
+            r = run(["go", "build", *cover, *tags, "-o", out, pkg], cwd=REPO, env=GOENV)
             if r.returncode != 0:
                 shutil.rmtree(d, ignore_errors=True)
                 raise BuildError("go build failed for %s:\n%s" % (pkg, r.stderr[-4000:]))
